@@ -99,6 +99,81 @@ def r1_parser(L, repo):
     return all(o.ok for o in L.obs if o.rule == "C14.R1")
 
 
+def r12_tokens(L, repo):
+    """The assumption behind `request[0]` ("index 0 of a split() result") is only true for split WITH a separator:
+    `"".split(" ") == [""]` but `"".split() == []`.  The token list the control interface hands to its command
+    handlers must have a verb slot for EVERY datagram that passes the signature test - including the bare signature
+    a truncated command leaves behind ("CMD", "CMD\0", "CMD  \0\0", "CMD \t \0").  Decided by folding
+    CTRLInterface.prepare_req() on those hostile witnesses (result: a list of at least one string); the structural
+    record proves it for all inputs when every returned value is `<str>.split(<separator>)`."""
+    FCI = rel("ctrl_if")
+    ci, pr = repo.need_method("ctrl_if", "CTRLInterface", "prepare_req")
+    L.unit(FCI)
+    L.fn(FCI, "CTRLInterface.prepare_req")
+    P = params(pr)[1]
+    memo = {}
+
+    def empty_ok():
+        # an empty token list is harmless when the verb matcher is total on it, or when the receive path tests the
+        # list before handing it to the command handlers
+        if "r" in memo:
+            return memo["r"]
+        ok_ = False
+        c2, vc = repo.find_method(ci, "verify_cmd")
+        if vc is not None:
+            ps = params(vc)
+            e2 = Ev(repo, c2.mod, env={ps[1]: [], ps[2]: "POWERON", ps[3]: 0}, self_cls=ci)
+            try:
+                e2.run_block(vc.body)
+                ok_ = True
+            except (Unknown, Raised):
+                ok_ = False
+        c3, hr = repo.find_method(ci, "handle_rx")
+        if not ok_ and hr is not None:
+            cfg = CFG(hr)
+            for c_ in find_calls(hr, attr="parse_cmd"):
+                arg = canon(c_.args[0]) if c_.args else None
+                lits = guard_literals(cfg, cfg.node_of(c_))
+                if arg and any(re.search(r"\b%s\b" % re.escape(arg), t) for t, p_ in lits):
+                    ok_ = True
+        memo["r"] = ok_
+        return ok_
+    wit = ["CMD","CMD\0", "CMD ", "CMD  \0\0", "CMD \t \0", "CMD\0\0\0\0", "CMD\n", "CMDX", "CMD POWERON", "CMD  SETTA  1 \0",
+           "CMD \0 \0", "CMD\t\0"]
+    for w in wit:
+        e = Ev(repo, ci.mod, env={P: w}, self_cls=ci)
+        e.ignore_calls = ("log.", "logging.")
+        try:
+            r = e.run_block(pr.body)
+            got = r[1] if isinstance(r, tuple) else None
+        except Unknown as ex:
+            raise AnalysisError("prepare_req does not fold for %r: %s" % (w, ex))
+        except Raised as ex:
+            got = "raises %s" % ex.cls
+        ok = isinstance(got, list) and len(got) >= 1 and all(isinstance(x, str) for x in got)
+        if got == []:
+            ok = empty_ok()
+        L.ob("C14.R12", FCI, "CTRLInterface.prepare_req", "datagram %r yields a token list with a verb slot (request[0] is total)" % w,
+             "a list of at least one string", got, ok, pr.lineno)
+
+    def shape():
+        rets = [n for n in ast.walk(pr) if isinstance(n, ast.Return)]
+        fs = deep_subst(pr)
+        for r_ in rets:
+            v = r_.value
+            txt = canon(v, fs) if v is not None else None
+            ok = False
+            try:
+                c_ = ast.parse(txt, mode="eval").body if txt else None
+                ok = isinstance(c_, ast.Call) and isinstance(c_.func, ast.Attribute) and c_.func.attr == "split" and len(c_.args) >= 1 \
+                    and not (isinstance(c_.args[0], ast.Constant) and c_.args[0].value is None)
+            except SyntaxError:
+                pass
+            L.ob("C14.R12", FCI, "CTRLInterface.prepare_req", "returned token list is a split on an explicit separator (never empty, for all inputs)",
+                 "<str>.split(<separator>)", txt, ok, r_.lineno)
+    L.structural("C14.R12 token list is never empty for all inputs (split with a separator)", shape)
+
+
 def site_key(s):
     ctx = ""
     cur = getattr(s.node, "_parent", None)
@@ -199,6 +274,54 @@ def _tri(test, env, konst):
     return None
 
 
+def _thread_identity(test, pol, repo, es):
+    """`<thread attr> is threading.current_thread()` (required true for the branch) can only hold in code the thread
+    itself executes: with the analysed entry point outside the name-resolved closure of every `Thread(target = T)` whose
+    object is stored in that attribute, the branch is dead on this path."""
+    from pyutil import _name_callgraph
+    if not pol or not isinstance(test, ast.Compare) or len(test.ops) != 1 or not isinstance(test.ops[0], (ast.Is, ast.Eq)):
+        return None
+    a, b = test.left, test.comparators[0]
+    def is_cur(x):
+        return isinstance(x, ast.Call) and canon(x.func) in ("threading.current_thread", "current_thread", "threading.currentThread")
+    thr = b if is_cur(a) else a if is_cur(b) else None
+    if thr is None or not isinstance(thr, ast.Attribute):
+        return None
+    funcs, callees = _name_callgraph(repo)
+    targets = []
+    n_store = 0
+    for m in repo.tk_modules():
+        for x in ast.walk(m.tree):
+            if isinstance(x, ast.Assign) and any(isinstance(t, ast.Attribute) and t.attr == thr.attr for t in x.targets):
+                if isinstance(x.value, ast.Constant) and x.value.value is None:
+                    continue
+                n_store += 1
+                if isinstance(x.value, ast.Call) and canon(x.value.func).split(".")[-1] == "Thread":
+                    tg = next((k.value for k in x.value.keywords if k.arg == "target"), None)
+                    if tg is not None:
+                        targets.append((m, tg))
+    if not targets or len(targets) != n_store:
+        return None
+    seen, work = set(), []
+    for m, tg in targets:
+        work.extend(callees(ast.Call(func=tg, args=[], keywords=[]), m.name))
+    while work:
+        k = work.pop()
+        if k in seen:
+            continue
+        seen.add(k)
+        work.extend(callees(funcs[k][1], funcs[k][0].name))
+    entry = getattr(es, "entry", None)
+    if entry is None:
+        return None
+    ecls, emeth = entry.split(".", 1)
+    # the entry point (and hence this path) belongs to the thread's code when a method of that name is in its closure
+    if any(k[2] == emeth for k in seen):
+        return None
+    return "unreachable on this path: `%s` holds only in code the thread itself runs (closure of its target: %d functions), the entry %s is not among them" % (
+        canon(test)[:60], len(seen), entry)
+
+
 def dead_raise(site, repo, es):
     """the raise sits in a branch that interval arithmetic decides is never taken: operands are bounded by the ranges
     established where the attributes are stored (`x in range(a, b)` guards of every store), the component ranges of
@@ -253,6 +376,9 @@ def dead_raise(site, repo, es):
     while par is not None and par is not fd:
         if isinstance(par, ast.If):
             pol = any(child is x for x in par.body)
+            why_t = _thread_identity(par.test, pol, repo, es)
+            if why_t:
+                return why_t
             v = _tri(par.test, env, konst)
             if v is not None and v != pol:
                 return "unreachable: `%s` is always %s (interval arithmetic over validated attribute ranges)" % (
@@ -867,6 +993,122 @@ def r10_list_head(L):
     L.floor("C14.R10", "first-entry accesses to list heads in trx_if.c", n_sites, 3)
 
 
+def r13_use_after_release(L):
+    """R13 (no datagram makes trxcon touch memory out of bounds - released objects): typestate over the statement CFG
+    of every function of trx_if.c.  A local pointer is RELEASED by `talloc_free(p)`; the transceiver instance and every
+    queued command taken from its list are released by `osmo_fsm_inst_term(<inst>->fi, ..)` when the FSM's cleanup
+    call-back frees them (read off the clean-up function of this file: it calls talloc_free() on its private pointer
+    and flushes the command list).  On no path from a release to the function's exit may the released pointer be
+    dereferenced (`p->m`, `*p`, `p[i]`) before it is assigned again: a malformed / unexpected response reaches exactly
+    these error exits."""
+    from cfront import TU, CCFG, kids, kind, strip, walk, ctext
+    tu = TU(L.repo, "trxcon", "src/trx_if.c", L=L)
+    F = tu.rel
+    # does terminating the FSM release the instance?  (clean-up call-back frees its private pointer)
+    term_frees = False
+    for fname_, f in tu.functions.items():
+        if "cleanup" in fname_ and any(kind(c) == "CompoundStmt" for c in kids(f)):
+            calls = [ctext(kids(n)[0]) for n in walk(tu.body(f)) if kind(n) == "CallExpr"]
+            if "talloc_free" in calls:
+                term_frees = True
+    L.extra["c14_r13_term_releases_instance"] = term_frees
+
+    def derefs(ast_, name):
+        out = []
+        for n in walk(ast_):
+            k = kind(n)
+            ks = kids(n)
+            base = None
+            if k == "MemberExpr" and n.get("isArrow") and ks:
+                base = ks[0]
+            elif k == "UnaryOperator" and n.get("opcode") == "*" and ks:
+                base = ks[0]
+            elif k == "ArraySubscriptExpr" and ks:
+                base = ks[0]
+            if base is not None:
+                b = strip(base, casts=True)
+                par = tu.parent.get(id(n))
+                while par is not None and kind(par) == "ParenExpr":
+                    par = tu.parent.get(id(par))
+                if par is not None and kind(par) == "UnaryOperator" and par.get("opcode") == "&":
+                    # `&p->m` computes an address and reads nothing - unless the address is handed to a function,
+                    # which is going to use the released object
+                    up = tu.parent.get(id(par))
+                    while up is not None and kind(up) in ("ParenExpr", "ImplicitCastExpr", "CStyleCastExpr"):
+                        up = tu.parent.get(id(up))
+                    if not (up is not None and kind(up) == "CallExpr"):
+                        continue
+                if kind(b) == "DeclRefExpr" and ctext(b) == name:
+                    out.append(n)
+        return out
+
+    def assigns(ast_, name):
+        for n in walk(ast_):
+            if kind(n) == "BinaryOperator" and n.get("opcode") == "=" and kids(n):
+                l = strip(kids(n)[0])
+                if kind(l) == "DeclRefExpr" and ctext(l) == name:
+                    return True
+        return False
+    n_rel = 0
+    for fname_, f in sorted(tu.functions.items()):
+        if not any(kind(c) == "CompoundStmt" for c in kids(f)):
+            continue
+        if not str(f.get("loc", {}).get("file", tu.rel)).endswith("trx_if.c") and f.get("loc", {}).get("includedFrom"):
+            continue
+        body = tu.body(f)
+        rels = []          # (call node, [released names], description)
+        ptr_locals = {}
+        for n in walk(body):
+            if kind(n) in ("VarDecl", "ParmVarDecl") and "*" in n.get("type", {}).get("qualType", ""):
+                ptr_locals[n.get("name")] = n.get("type", {}).get("qualType", "")
+        for pd in kids(f):
+            if kind(pd) == "ParmVarDecl" and "*" in pd.get("type", {}).get("qualType", ""):
+                ptr_locals[pd.get("name")] = pd.get("type", {}).get("qualType", "")
+        for n in walk(body):
+            if kind(n) != "CallExpr":
+                continue
+            cal = ctext(kids(n)[0])
+            args = kids(n)[1:]
+            if cal == "talloc_free" and args:
+                a = strip(args[0], casts=True)
+                if kind(a) == "DeclRefExpr":
+                    rels.append((n, [ctext(a)], "talloc_free(%s)" % ctext(a)))
+            elif cal == "osmo_fsm_inst_term" and args and term_frees:
+                a = strip(args[0], casts=True)
+                if kind(a) == "MemberExpr" and a.get("isArrow") and kind(strip(kids(a)[0], casts=True)) == "DeclRefExpr":
+                    inst = ctext(strip(kids(a)[0], casts=True))
+                    names = [inst] + sorted(nm for nm, ty in ptr_locals.items() if "trx_ctrl_msg" in ty)
+                    rels.append((n, names, "osmo_fsm_inst_term(%s->fi, ..)" % inst))
+        if not rels:
+            continue
+        g = CCFG(tu, f)
+        L.fn(F, fname_)
+        for call, names, desc in rels:
+            n_rel += 1
+            start = g.node_of(call)
+            for nm in names:
+                seen, work, bad = set(), [x for x, _l in start.succ], []
+                while work:
+                    nd = work.pop()
+                    if nd.id in seen:
+                        continue
+                    seen.add(nd.id)
+                    a_ = nd.cond if nd.kind in ("cond", "switch") and getattr(nd, "cond", None) is not None else nd.ast
+                    if nd.kind in ("cond", "switch") and getattr(nd, "cond", None) is None:
+                        a_ = None
+                    if nd.kind in ("label", "case"):
+                        a_ = None
+                    if a_ is not None and isinstance(a_, dict) and a_.get("kind") != "DoHead":
+                        bad += [(x, nd) for x in derefs(a_, nm)]
+                        if assigns(a_, nm):
+                            continue
+                    work.extend(x for x, _l in nd.succ)
+                found = sorted({"`%s`" % ctext(x)[:50] for x, _nd in bad})
+                L.ob("C14.R13", F, fname_, "`%s` is not dereferenced after %s released it" % (nm, desc), "no dereference on any path to the exit",
+                     found, not found, tu.line(bad[0][0]) if bad else tu.line(call))
+    L.floor("C14.R13", "release sites in trx_if.c", n_rel, 3)
+
+
 def r11_clock_path(L, repo):
     """R11 (no datagram can crash the tools - clock thread): what the clock thread executes for queued bursts
     (Application.clck_handler -> Transceiver.clck_tick -> forward_msg -> handle_data_msg -> send_msg) raises nothing that
@@ -1034,5 +1276,7 @@ def run(L, tier):
     L.stage(r5_capture, L, repo)
     L.stage(r6_c_null, L)
     L.stage(r10_list_head, L)
+    L.stage(r13_use_after_release, L)
     L.stage(r11_clock_path, L, repo)
     L.stage(r9_desc_total, L, repo)
+    L.stage(r12_tokens, L, repo)
